@@ -178,18 +178,26 @@ Section Grouping.
 End Grouping.
 
 (* ---- evaluation ---- *)
+(* Truthiness and the prefix operators are taken on the state AT HAND (the one the operand evaluation left):
+   an operand evaluated inside the chain can be an object allocated by the chain itself. *)
 Section Eval.
   Context {X V S : Type}.
   Variable evalx : X -> S -> res (V * S).
   Variable apply_bin : binop -> V -> V -> S -> res (V * S).  (* strict binary operators; arguments in source order *)
-  Variable apply_un : unop -> V -> res V.
-  Variable truthy : V -> bool.
+  Variable apply_un : unop -> V -> S -> res V.
+  Variable truthy : V -> S -> bool.
 
   Definition rbind {A B} (r : res A) (f : A -> res B) : res B :=
     match r with Ok a => f a | Err k => Err k | OutOfFuel => OutOfFuel end.
 
   Definition lift_un (u : unop) (v : V) (st : S) : res (V * S) :=
-    rbind (apply_un u v) (fun r => Ok (r, st)).
+    rbind (apply_un u v st) (fun r => Ok (r, st)).
+
+  (* and / or look at the truthiness of their left operand; interpretOps looks at it a second time after the right
+     operand was evaluated.  An operand evaluation that CHANGES the truthiness of the left operand (a function
+     that fills the dict on the left) is outside the model: it refuses. *)
+  Definition recheck {A} (obj : V) (st st1 : S) (k : res A) : res A :=
+    if Bool.eqb (truthy obj st1) (truthy obj st) then k else Err EUnsupported.
 
   (* interpretOp with the operand still an expression: `case And, Or` evaluates it only when needed *)
   Definition interp_op_x (obj : V) (i : item X) (st : S) : res (V * S) :=
@@ -197,16 +205,19 @@ Section Eval.
     | IUn u => lift_un u obj st
     | IBin o x =>
         match o with
-        | And | Or => if Bool.eqb (truthy obj) (binop_eqb o And) then evalx x st else Ok (obj, st)
+        | And | Or => if Bool.eqb (truthy obj st) (binop_eqb o And)
+                      then rbind (evalx x st) (fun '(r, st1) => recheck obj st st1 (Ok (r, st1)))
+                      else Ok (obj, st)
         | _ => rbind (evalx x st) (fun '(r, st1) => apply_bin o obj r st1)
         end
     end.
 
-  (* interpretOp with Expr = a Constant (the already computed right operand nobj) *)
-  Definition interp_op_v (obj : V) (o : binop) (n : V) (st : S) : res (V * S) :=
+  (* interpretOp with Expr = a Constant (the already computed right operand nobj); st is the state in which
+     interpretOps looked at obj before it evaluated the operand, st2 the one it is in now *)
+  Definition interp_op_v (obj : V) (o : binop) (n : V) (st st2 : S) : res (V * S) :=
     match o with
-    | And | Or => if Bool.eqb (truthy obj) (binop_eqb o And) then Ok (n, st) else Ok (obj, st)
-    | _ => apply_bin o obj n st
+    | And | Or => recheck obj st st2 (if Bool.eqb (truthy obj st2) (binop_eqb o And) then Ok (n, st2) else Ok (obj, st2))
+    | _ => apply_bin o obj n st2
     end.
 
   Fixpoint flat_ops (obj : V) (ops : list (item X)) (st : S) : res (V * S) :=
@@ -216,12 +227,12 @@ Section Eval.
     | i0 :: ((i1 :: _) as rest) =>
         if aprec (ikey i0) >=? aprec (ikey i1) then
           rbind (interp_op_x obj i0 st) (fun '(r, st1) => flat_ops r rest st1)
-        else if alazy (ikey i0) && negb (Bool.eqb (truthy obj) (key_is_and (ikey i0))) then Ok (obj, st)
+        else if alazy (ikey i0) && negb (Bool.eqb (truthy obj st) (key_is_and (ikey i0))) then Ok (obj, st)
         else match i0 with
              | IUn u => rbind (flat_ops obj rest st) (fun '(r, st1) => lift_un u r st1)
              | IBin o x =>
                  rbind (evalx x st) (fun '(r0, st1) =>
-                 rbind (flat_ops r0 rest st1) (fun '(n, st2) => interp_op_v obj o n st2))
+                 rbind (flat_ops r0 rest st1) (fun '(n, st2) => interp_op_v obj o n st st2))
              end
     end.
 
@@ -233,7 +244,9 @@ Section Eval.
     | TBin o l r =>
         rbind (teval l st) (fun '(a, st1) =>
           match o with
-          | And | Or => if Bool.eqb (truthy a) (binop_eqb o And) then teval r st1 else Ok (a, st1)
+          | And | Or => if Bool.eqb (truthy a st1) (binop_eqb o And)
+                        then rbind (teval r st1) (fun '(b, st2) => recheck a st1 st2 (Ok (b, st2)))
+                        else Ok (a, st1)
           | _ => rbind (teval r st1) (fun '(b, st2) => apply_bin o a b st2)
           end)
     end.
